@@ -7,6 +7,7 @@ wt=$1; k=$2
 export GOFLAGS=-mod=mod GOPROXY=off
 unset GOTOOLCHAIN
 cd $wt || exit 2
+L=/tmp/mc_$(basename $(dirname $wt))_$(basename $wt)
 git checkout -q -- . ; 
 M=$wt/MUTANTS
 demo=$M/m$k.demo_test.go
@@ -16,13 +17,18 @@ name=$(grep -o -E 'func (Test[A-Za-z0-9_]+)' $demo | head -1 | cut -d' ' -f2)
 echo "demo dir=$dir test=$name"
 cp $demo $wt/$dir/zz_mutant_demo${k}_test.go
 # without patch
-go test -vet=off -count=1 -run "^$name\$" ./$dir/ > /tmp/mc_clean.log 2>&1; rc_clean=$?
+go test -vet=off -count=1 -run "^$name\$" ./$dir/ > $L.clean.log 2>&1; rc_clean=$?
 git apply $M/m$k.patch.diff || { echo "patch does not apply"; exit 2; }
-go test -vet=off -count=1 -run "^$name\$" ./$dir/ > /tmp/mc_mut.log 2>&1; rc_mut=$?
+go test -vet=off -count=1 -run "^$name\$" ./$dir/ > $L.mut.log 2>&1; rc_mut=$?
 rm -f $wt/$dir/zz_mutant_demo${k}_test.go
-go build $(go list ./... | grep -v "cmd/mmmbbb\|MUTANTS") > /tmp/mc_build.log 2>&1; rc_build=$?
-go test -vet=off -count=1 $(go list ./... | grep -v "cmd/mmmbbb\|MUTANTS") > /tmp/mc_suite.log 2>&1; rc_suite=$?
+go build $(go list ./... | grep -v "cmd/mmmbbb\|MUTANTS") > $L.build.log 2>&1; rc_build=$?
+for try in 1 2 3; do
+  go test -vet=off -count=1 $(go list ./... | grep -v "cmd/mmmbbb\|MUTANTS") > $L.suite.log 2>&1; rc_suite=$?
+  [ $rc_suite -eq 0 ] && break
+  # the streamer test is flaky on the unmodified code too: re-run when it is the only failure
+  [ -n "$(grep -E '^--- FAIL' $L.suite.log | grep -v TestMessageStreamer_Go)" ] && break
+done
 git checkout -q -- .
-echo "RESULT k=$k demo_clean_rc=$rc_clean demo_mut_rc=$rc_mut build_rc=$rc_build suite_rc=$rc_suite"
-[ $rc_suite -ne 0 ] && grep -E "^(FAIL|---)" /tmp/mc_suite.log | head
+echo "RESULT k=$k demo_clean_rc=$rc_clean demo_mut_rc=$rc_mut build_rc=$rc_build suite_rc=$rc_suite tries=$try"
+[ $rc_suite -ne 0 ] && grep -E "^(FAIL|---)" $L.suite.log | head
 exit 0
